@@ -172,7 +172,7 @@ def one_case(rng, cid):
     life = lambda kinds_: rng.choices(kinds_, [0.55] + [0.45 / (len(kinds_) - 1)] * (len(kinds_) - 1))[0]
     meta = {"N": N, "K": K, "dl": dl, "dc": dc, "likmodel": "gauss" if gauss else "scripted", "exo": exo,
             "nfail": fr.count(0), "nvanish": sum(1 for q in kinds if q in ("vanishing", "zero")), "nreset": sum(resets[:-1]),
-            "life_pred": life(["fresh", "moved", "vector", "assigned"]), "life_corr": life(["fresh", "moved", "vector"]),
+            "life_pred": life(["fresh", "moved", "vector", "assigned"]), "life_corr": life(["fresh", "moved", "vector", "assigned"]), "used_target": int(rng.random() < 0.5),
             "life_res": life(["fresh", "moved", "vector", "assigned"]),
             "used_pred": int(rng.random() < 0.4), "used_corr": int(rng.random() < 0.4), "used_res": int(rng.random() < 0.4),
             "intrude": int(rng.random() < 0.25), "conc": int(rng.random() < 0.04)}
@@ -530,6 +530,8 @@ def histogram(cases):
         h["likmodel"][c.meta.get("likmodel")] = h["likmodel"].get(c.meta.get("likmodel"), 0) + 1
         for part in ("pred", "corr", "res"):
             key = "%s:%s%s" % (part, c.meta.get("life_" + part, "fresh"), "+used" if str(c.meta.get("used_" + part, 0)) == "1" else "")
+            if part == "corr" and c.meta.get("life_corr") == "assigned" and str(c.meta.get("used_target", 0)) == "1":
+                key += "+used-target"
             h["lifetimes"][key] = h["lifetimes"].get(key, 0) + 1
     h.update(_stats)
     return h
@@ -546,4 +548,4 @@ LEVEL_TEXT = ("Proof: the model of SIS::filtering_step (prediction skipped at st
 LEVEL_NOTE = ("Trusted: Coq kernel + the 4 real-number axioms, extraction + float driver (incl. the token -> command translation), harness (probe subclass, "
               "scripted models, RNG mirror); rounding is not modelled; near-boundary decisions end the comparison of a history; the tie to the code is sampled. "
               "Resampling implementations other than the base class, and PFPrediction implementations that change weights (GPFPrediction belongs to C08), are "
-              "outside the model. BootstrapCorrection's move ASSIGNMENT is not exercised (it leaves the target's models in place: reported).")
+              "outside the model.")
